@@ -406,8 +406,8 @@ class ContractType(AddressType, prim='contract', args_len=1):
         return self.value.split('%')[0]
 
     def get_entrypoint(self) -> str:
-        res = self.value.split('%')
-        return res[1] if len(res) == 2 else 'default'
+        _, _, entrypoint = self.value.partition('%')
+        return entrypoint or 'default'
 
     def to_python_object(self, try_unpack=False, lazy_diff=False, comparable=False):
         assert not comparable, f'{self.prim} is not comparable'
